@@ -777,9 +777,10 @@ func checkGateAndUndo(p *core.Prog, r *core.Report, rule string) {
 		name string
 		obj  *types.Func
 	}{{"stores-reverted", hUndo}, {"buffer-dropped", engUndo}} {
-		calls := core.FindInstrs(hu, core.IsCallTo(w.obj))
+		calls := core.FindInstrs(hu, core.LiftThroughCalls(core.IsCallTo(w.obj), 1))
 		okAll := len(calls) > 0
 		for _, c := range calls {
+
 			// reached on every path from entry: not behind the gate test
 			if _, must := core.MustPassBefore(hu, func(x ssa.Instruction) bool { return x == c }, func(x ssa.Instruction) bool {
 				_, isIf := x.(*ssa.If)
